@@ -33,14 +33,24 @@
 EXTENDS Integers, Sequences, FiniteSets, TLC
 
 None == -1
+Templates == {"entry", "chunk", "asset"}
 
 (***************************************************************************)
 (* Worlds                                                                  *)
 (*  chunks  : 1..n          assets : set of asset ids (strings)            *)
 (*  imp     : [chunks -> SUBSET chunks]   cross-chunk imports              *)
 (*  aref    : [chunks -> SUBSET assets]   file-loader / url() references   *)
-(*  hashedC : [chunks -> BOOLEAN]         name template contains [hash]    *)
-(*  hashedA : BOOLEAN                     asset template contains [hash]   *)
+(*  The three name templates "entry", "chunk", "asset":                    *)
+(*  th      : [Templates -> BOOLEAN]      the template contains [hash]     *)
+(*  tplC    : [chunks -> {"entry","chunk"}]  the template that names the   *)
+(*            chunk (user entry points: entry; shared chunks and the entry *)
+(*            chunks of dynamic imports: chunk)                            *)
+(*  tplA    : [assets -> {"entry","asset"}]  file / copy-loader outputs    *)
+(*            are named by the asset template, except a copied file that   *)
+(*            is an entry point itself (entry template); such an asset is  *)
+(*            emitted even if no chunk refers to it                        *)
+(*  Every output is subject to the properties according to ITS OWN         *)
+(*  template (HashedC / HashedA).                                          *)
 (*  pp      : BOOLEAN                     a public path is configured      *)
 (*  sm      : "none" | "linked" | "external" | "inline" | "both"           *)
 (*  legal   : "none" | "inline" | "eof" | "linked" | "external"            *)
@@ -53,7 +63,8 @@ None == -1
 (*        smP, smM, smS : [chunks -> Nat]  the three source map pieces     *)
 (*          (prefix = sources, sourceRoot, sourcesContent; mappings;       *)
 (*          suffix = names), abytes : [assets -> Nat], atpl : Nat (the     *)
-(*          asset name template)        (legalv = 0: no legal comment)     *)
+(*          name template of an asset, per asset) (legalv = 0: no legal    *)
+(*          comment)                                                       *)
 (***************************************************************************)
 
 RECURSIVE SortedSeq(_)
@@ -72,8 +83,22 @@ ExtLegal(w, c) == IF w.legal \in {"linked", "external"} THEN w.legalv[c] ELSE 0
 HasMap(w) == w.sm \in {"linked", "external", "both"}
 InlineMap(w) == w.sm \in {"inline", "both"}
 
-Ingredients == {"parts", "tmpl", "pp", "pieces", "legal", "smP", "smM", "smS", "modes", "imports", "assetpath"}
+Ingredients == {"parts", "tmpl", "pp", "pieces", "legal", "smP", "smM", "smS", "modes", "imports", "assetpath", "owntpl"}
 Kept(w, d) == d \notin w.drop
+
+\* does the name of the output contain [hash]: decided by its own template
+HashedC(w, c) == w.th[w.tplC[c]]
+HashedA(w, a) == w.th[w.tplA[a]]
+\* is the hash computed: the code asks the template of the output
+\* (config.HasPlaceholder(template, HashPlaceholder) after the template was
+\* chosen); the mutant "owntpl" asks the default template of the kind of
+\* output instead (assets: asset template, chunks: chunk template), so that
+\* the empty string is substituted for [hash] when the two disagree
+ComputedC(w, c) == IF Kept(w, "owntpl") THEN HashedC(w, c) ELSE w.th["chunk"]
+ComputedA(w, a) == IF Kept(w, "owntpl") THEN HashedA(w, a) ELSE w.th["asset"]
+\* the hash part of a name: "none" (no [hash] in the template), "hash", or
+\* "empty" ([hash] in the template but nothing was computed)
+HPart(hashed, computed) == IF ~hashed THEN "none" ELSE IF computed THEN "hash" ELSE "empty"
 
 \* the data between the placeholders: the printed code (with inline legal
 \* comments); the number of pieces is the number of placeholders + 1
@@ -104,10 +129,11 @@ Iso(w, c) ==
 \* asset hash.
 \* (the field names are chosen so that the cheap, discriminating fields come
 \* first in TLC's field order: comparisons settle before the nested hash)
-Path(kind, owner, tmpl, final, ah) == [a_kind |-> kind, b_owner |-> owner, c_tmpl |-> tmpl, d_ah |-> ah, e_final |-> final]
+Path(kind, owner, tmpl, final, ah, hp) == [a_kind |-> kind, b_owner |-> owner, c_tmpl |-> tmpl, d_ah |-> ah, d_hp |-> hp, e_final |-> final]
 
 \* names of assets: the hash of the bytes only (bundler.go)
-AName(w, a) == Path("asset", a, w.atpl, <<>>, IF w.hashedA THEN w.abytes[a] ELSE None)
+AName(w, a) == Path("asset", a, <<w.tplA[a], w.atpl[a]>>, <<>>, IF HashedA(w, a) /\ ComputedA(w, a) THEN w.abytes[a] ELSE None,
+                    HPart(HashedA(w, a), ComputedA(w, a)))
 
 \* one element of what is written into the final hash: a relative asset path or an isolated hash
 HA(p) == [a |-> <<p>>, i |-> <<>>]
@@ -128,7 +154,8 @@ VisitAll(w, cs, acc) == IF cs = <<>> THEN acc ELSE VisitAll(w, Tail(cs), Visit(w
 
 Final(w, c) == Visit(w, c, [seen |-> {}, out |-> <<>>]).out
 
-CName(w, c) == Path("chunk", ToString(c), w.tmpl[c], IF w.hashedC[c] THEN Final(w, c) ELSE <<>>, None)
+CName(w, c) == Path("chunk", ToString(c), <<w.tplC[c], w.tmpl[c]>>, IF HashedC(w, c) /\ ComputedC(w, c) THEN Final(w, c) ELSE <<>>, None,
+                    HPart(HashedC(w, c), ComputedC(w, c)))
 \* The names of all chunks are computed once per world and kept in the field
 \* `names` (a sequence indexed by chunk number); the operators below take such
 \* a "named" world v.
@@ -177,6 +204,8 @@ ChunkBytes(w, c) ==
         None)
 
 UsedAssets(w) == UNION {w.aref[c] : c \in w.chunks}
+\* a copied entry point is emitted whether or not a chunk refers to it
+EmittedAssets(w) == UsedAssets(w) \cup {a \in w.assets : w.tplA[a] = "entry"}
 
 \* references written into a chunk (as paths)
 RECURSIVE RefsOfBody(_)
@@ -187,10 +216,10 @@ RefsOfBytes(b) ==
 \* the emitted files: [path, bytes, hashed, kind, owner, refs]
 File(path, bytes, hashed, kind, owner) == [a_kind |-> kind, b_owner |-> owner, c_hashed |-> hashed, path |-> path, q_bytes |-> bytes, refs |-> RefsOfBytes(bytes)]
 FilesN(v) ==
-  {File(NameOf(v, c), ChunkBytes(v, c), v.hashedC[c], "chunk", ToString(c)) : c \in v.chunks}
-  \cup {File(MapName(v, c), Bytes(<<>>, <<>>, <<>>, <<FinalMap(v, c)>>, None), v.hashedC[c], "map", ToString(c)) : c \in {d \in v.chunks : HasMap(v)}}
-  \cup {File(LegalName(v, c), Bytes(<<>>, <<>>, <<>>, <<>>, ExtLegal(v, c)), v.hashedC[c], "legal", ToString(c)) : c \in {d \in v.chunks : ExtLegal(v, d) # 0}}
-  \cup {File(AName(v, a), Bytes(<<>>, <<>>, <<>>, <<>>, v.abytes[a]), v.hashedA, "asset", a) : a \in UsedAssets(v)}
+  {File(NameOf(v, c), ChunkBytes(v, c), HashedC(v, c), "chunk", ToString(c)) : c \in v.chunks}
+  \cup {File(MapName(v, c), Bytes(<<>>, <<>>, <<>>, <<FinalMap(v, c)>>, None), HashedC(v, c), "map", ToString(c)) : c \in {d \in v.chunks : HasMap(v)}}
+  \cup {File(LegalName(v, c), Bytes(<<>>, <<>>, <<>>, <<>>, ExtLegal(v, c)), HashedC(v, c), "legal", ToString(c)) : c \in {d \in v.chunks : ExtLegal(v, d) # 0}}
+  \cup {File(AName(v, a), Bytes(<<>>, <<>>, <<>>, <<>>, v.abytes[a]), HashedA(v, a), "asset", a) : a \in EmittedAssets(v)}
 Files(w) == FilesN(Named(w))
 
 Paths(w) == {f.path : f \in Files(w)}
@@ -219,7 +248,7 @@ Apply1(w, e) ==
     [] e.k = "pp"     -> [w EXCEPT !.ppv = @ + 1]
     [] e.k = "ppon"   -> [w EXCEPT !.pp = TRUE]
     [] e.k = "asset"  -> [w EXCEPT !.abytes = Bump(@, e.a)]
-    [] e.k = "atpl"   -> [w EXCEPT !.atpl = @ + 1]
+    [] e.k = "atpl"   -> [w EXCEPT !.atpl = Bump(@, e.a)]
     [] e.k = "smmode" -> [w EXCEPT !.sm = e.to]
     [] e.k = "legalmode" -> [w EXCEPT !.legal = e.to]
     [] e.k = "import" -> [w EXCEPT !.imp = [@ EXCEPT ![e.c] = @ \cup {e.d}], !.code = Bump(@, e.c)]
@@ -243,10 +272,11 @@ ChangePropagatesF(w1, w2, F1, F2) ==
       reach == [d \in w1.chunks |-> Reach(w1, d)]
   IN
   /\ \A c \in w1.chunks : (\E f1 \in OwnFiles(F1, c), f2 \in OwnFiles(F2, c) : f1.k = f2.k /\ f1.b # f2.b) =>
-        \A d \in w1.chunks : (c \in reach[d] /\ w1.hashedC[d]) => n1[d] # n2[d]
-  /\ \A a \in UsedAssets(w1) : (w1.hashedA /\ w1.abytes[a] # w2.abytes[a]) =>
+        \A d \in w1.chunks : (c \in reach[d] /\ HashedC(w1, d)) => n1[d] # n2[d]
+  \* an asset whose own template has no [hash] opts out: its path is all that its importers contain
+  /\ \A a \in EmittedAssets(w1) : (HashedA(w1, a) /\ w1.abytes[a] # w2.abytes[a]) =>
         /\ AName(w1, a) # AName(w2, a)
-        /\ \A d \in w1.chunks : (w1.hashedC[d] /\ \E c \in reach[d] : a \in w1.aref[c]) => n1[d] # n2[d]
+        /\ \A d \in w1.chunks : (HashedC(w1, d) /\ \E c \in reach[d] : a \in w1.aref[c]) => n1[d] # n2[d]
 ChangePropagates(w1, w2) == ChangePropagatesF(w1, w2, Files(w1), Files(w2))
 
 RefsResolveF(F) == \A f \in F : \A r \in f.refs : \E g \in F : g.path = r
@@ -262,6 +292,10 @@ NoPlaceholderSurvivesF(w, F) ==
         /\ (w.fake[ChunkByStr(w, f.b_owner)] => \E k \in 1..Len(body) : body[k].t = "fake")
 NoPlaceholderSurvives(w) == NoPlaceholderSurvivesF(w, Files(w))
 
+\* a template with [hash] never yields a name with an empty hash part
+NoEmptyHashF(F) == \A f \in F : f.path.d_hp # "empty"
+NoEmptyHash(w) == NoEmptyHashF(Files(w))
+
 Failing(w1, w2) ==
   LET F1 == Files(w1)
       F2 == Files(w2)
@@ -269,5 +303,6 @@ Failing(w1, w2) ==
   (IF SamePathSameBytesF(F1, F2) THEN {} ELSE {"SamePathSameBytes"}) \cup
   (IF ChangePropagatesF(w1, w2, F1, F2) THEN {} ELSE {"ChangePropagates"}) \cup
   (IF RefsResolveF(F1) /\ RefsResolveF(F2) THEN {} ELSE {"RefsResolve"}) \cup
-  (IF NoPlaceholderSurvivesF(w1, F1) /\ NoPlaceholderSurvivesF(w2, F2) THEN {} ELSE {"NoPlaceholderSurvives"})
+  (IF NoPlaceholderSurvivesF(w1, F1) /\ NoPlaceholderSurvivesF(w2, F2) THEN {} ELSE {"NoPlaceholderSurvives"}) \cup
+  (IF NoEmptyHashF(F1) /\ NoEmptyHashF(F2) THEN {} ELSE {"NoEmptyHash"})
 =============================================================================
